@@ -436,7 +436,7 @@ fn read_lazy(body: &[u8]) -> Result<bam::Record, String> {
 }
 
 /// validate (through the real reader) + every accessor of the lazy record
-fn real_lazy(body: &[u8]) -> Result<Vec<String>, String> {
+pub fn real_lazy(body: &[u8]) -> Result<Vec<String>, String> {
     let rec = read_lazy(body)?;
     Ok(accessors!(rec))
 }
@@ -1460,6 +1460,7 @@ fn rec_case(ctx: &mut Ctx, sub: u64, long: bool, emit_corr: bool) {
 pub fn run(ctx: &mut Ctx) {
     if let Some(case) = ctx.replay_only.clone() {
         if super::c05_reenc::replay(ctx, &case) { return; }
+        if super::c05_fast::replay(ctx, &case) { return; }
         let sub: u64 = case.get(1).and_then(|s| s.parse().ok()).unwrap_or(0);
         match case.first().map(|s| s.as_str()) {
             Some("rec") => rec_case(ctx, sub, false, true),
@@ -1506,4 +1507,5 @@ pub fn run(ctx: &mut Ctx) {
         reader_sequence(ctx, ctx.seed.wrapping_mul(9_000_011).wrapping_add(it));
     }
     super::c05_reenc::run(ctx);
+    super::c05_fast::run(ctx);
 }
